@@ -91,6 +91,7 @@ func c16Regex(c *Case) {
 		forms := []string{
 			"matches(" + ss + ", " + bs + ")", "matches(" + ss + ", (" + bs + "))", "matches(" + ss + ",((( " + bs + " ))))", "matches(" + ss + " ,\n" + bs + " )",
 			"//*[matches(., " + bs + ")]", "not(matches(" + ss + ", (" + bs + ")))", "matches(" + ss + ", " + bs + ") or true()", "string(matches(a, " + bs + "))",
+			"//a[matches(., " + bs + ")][1]", "(//a[matches(@h, " + bs + ")])[1]", "//a[matches(., " + bs + ")][@x]/b", "(//a[replace(., " + bs + ", '') = ''])[last()]", "//a[b[matches(., " + bs + ")][2]]",
 			"replace(" + ss + ", " + bs + ", 'x')", "replace(" + ss + ", (" + bs + "), 'x')", "//*[replace(., " + bs + ", '') = '']", "concat('a', replace(" + ss + ", ((" + bs + ")), '$1'))",
 		}
 		if !strings.Contains(bad, "\"") && !strings.Contains(bad, "'") {
